@@ -123,8 +123,9 @@ def build_variant(recs, delim, mode, probe):
     # with observations in between on the live object
     conv = Converter([], delimiter=delim)
     m = Model([], delim)
-    for r in recs:
-        conv.add_record(Record(prefix=r.prefix, uri_prefix=r.uri_prefix))
+    for k, r in enumerate(recs):
+        # the first record carries a pattern (patterns play no role in expansion)
+        conv.add_record(Record(prefix=r.prefix, uri_prefix=r.uri_prefix, pattern="^1$" if k == 0 else None))
         m.records.append(mrec(r.prefix, r.uri_prefix))
     probe(conv, m)
     for i, r in enumerate(recs):
@@ -194,7 +195,7 @@ def run_case(case, ctx=None):
     b = bounds(case.get("tier", "quick"))
     model0 = Model(recs, d)
     ids = identifiers(d)
-    for mode in ("ctor", "merge-late", "history", "loader"):
+    for mode in ("ctor", "merge-late", "history", "loader", "shared-list"):
         model = model0
         prefixes = sorted(model.all_prefixes()) + UNREG + (GHOSTS if mode == "history" else [])
         if mode == "merge-late" and not any(r.psyn or r.usyn for r in recs):
@@ -212,6 +213,12 @@ def run_case(case, ctx=None):
                 conv, model = build_history(recs, d, probe)
                 if model is None:
                     continue
+            elif mode == "shared-list":
+                from ..impl import build_shared_list, model_of
+
+                conv = build_shared_list(recs, d)
+                model = Model(model_of(conv).records, d)   # the converter answers for what its own records list says
+                prefixes = sorted(model.all_prefixes()) + UNREG + ["zz6", "zz7", "zz8", "zz8s"]
             elif mode == "loader":
                 # the same converter through a loader, the delimiter passed as keyword argument
                 if any(r.psyn for r in recs):
